@@ -229,7 +229,7 @@ TRIGGERS = {
     "jwt-decode-verify": {"variants": [("import jwt\n", 'jwt.decode(t, "k", algorithms=["HS256"], verify=False)'),
                                        ("import jwt\n", 'jwt.decode(t, "k", algorithms=["HS256"], options={"verify_signature": False})'),
                                        ("from jwt import decode\n", 'decode(t, "k", algorithms=["HS256"], verify=False)')]},
-    "limit-readline": {"variants": [("f = open('x')\n", "f.readline()")]},
+    "limit-readline": {"variants": [("f = open('x')\n", "f.readline()"), ("f = open('x')\ng = open('y')\n", "g.readline()")]},
     "safe-lxml-parser-defaults": {"variants": [("import lxml.etree\n", "lxml.etree.XMLParser()"), ("from lxml import etree\n", "etree.XMLParser()"),
                                                ("from lxml.etree import XMLParser\n", "XMLParser()")]},
     "safe-lxml-parsing": {"variants": [("import lxml.etree\n", 'lxml.etree.parse("f.xml")'), ("from lxml import etree\n", 'etree.fromstring("<a/>")')]},
@@ -246,7 +246,7 @@ TRIGGERS = {
                                   ("import logging\nname = 's'\n", 'logging.info("a " + name)'),
                                   ("import logging\nlog = logging.getLogger('a')\n", 'log.error("a %s" % x)')],
                      "declined": [("import logging\n", 'logging.info("a %s" % x + y)')]},
-    "fix-hasattr-call": {"variants": [("", 'hasattr(obj, "__call__")')]},
+    "fix-hasattr-call": {"variants": [("", 'hasattr(obj, "__call__")'), ("", 'hasattr(other.attr, "__call__")')]},
     "secure-flask-cookie": {"variants": [("import flask\nresp = flask.make_response('x')\n", 'resp.set_cookie("k", "v")'),
                                          ("from flask import make_response\nresp = make_response('x')\n", 'resp.set_cookie("k", "v", secure=False)')]},
     "bad-lock-with-statement": {"stmt": True, "variants": [("import threading\n", "with threading.Lock():\n    pass"),
@@ -261,6 +261,53 @@ QUICK = ["requests-verify", "add-requests-timeouts", "secure-random", "harden-py
 
 def indent(text, pre):
     return "".join(pre + l if l.strip() else l for l in text.splitlines(keepends=True))
+
+
+def nest_into(outer_e: str, inner_e: str):
+    """the call outer_e with inner_e as its first argument (replaces a leading positional argument, else prepends one)"""
+    import libcst as cst
+    try:
+        o, inner = cst.parse_expression(outer_e), cst.parse_expression(inner_e)
+    except Exception:
+        return None
+    if not isinstance(o, cst.Call):
+        return None
+    args = list(o.args)
+    if args and args[0].keyword is None and not args[0].star:
+        args[0] = args[0].with_changes(value=inner)
+    else:
+        args = [cst.Arg(value=inner, comma=cst.Comma(whitespace_after=cst.SimpleWhitespace(" ")) if args else cst.MaybeSentinel.DEFAULT)] + args
+    return cst.Module([]).code_for_node(o.with_changes(args=args))
+
+
+def nest_with(outer_s: str, inner_s: str):
+    """`with A:\n    pass` around another with-statement"""
+    if not (outer_s.startswith("with ") and outer_s.endswith("    pass")):
+        return None
+    return outer_s[: -len("    pass")] + indent(inner_s + "\n", "    ").rstrip("\n")
+
+
+def header_bindings(header: str):
+    import ast
+    out = {}
+    for st in ast.parse(header).body:
+        if isinstance(st, ast.Import):
+            for a in st.names:
+                out[a.asname or a.name.split(".")[0]] = ("import", a.name if a.asname else a.name.split(".")[0])
+        elif isinstance(st, ast.ImportFrom):
+            for a in st.names:
+                out[a.asname or a.name] = ("from", st.module, a.name)
+        elif isinstance(st, ast.Assign):
+            for t in st.targets:
+                out[ast.unparse(t)] = ("assign", ast.unparse(st.value))
+    return out
+
+
+def merge_headers(h1: str, h2: str):
+    b1, b2 = header_bindings(h1), header_bindings(h2)
+    if any(k in b2 and b2[k] != v for k, v in b1.items()):
+        return None
+    return h1 + "".join(l for l in h2.splitlines(keepends=True) if l not in h1.splitlines(keepends=True))
 
 
 def build_search_project(rng, spec):
@@ -288,6 +335,22 @@ def build_search_project(rng, spec):
             add(header, f"v = {e[:j + 1]}\n    {e[j + 1:-1]}\n)", f"v{vi}_multiline")
         add(header, f"v = {e}\nw = 1\nz = {e}", f"v{vi}_two")
         add(header, f"{e}", f"v{vi}_bare")
+    # nested shapes for every codemod: the flagged construct as first argument of the same construct, and of a
+    # different flagged construct of the same rule
+    variants = spec["variants"]
+    for vi, (header, e) in enumerate(variants):
+        nest = nest_with if is_stmt else nest_into
+        body = nest(e, e)
+        if body:
+            add(header, body if is_stmt else f"v = {body}", f"nested_self_v{vi}")
+        for vj, (header2, e2) in enumerate(variants):
+            if vj == vi or e2 == e:
+                continue
+            merged = merge_headers(header2, header)
+            body = nest(e2, e) if merged is not None else None
+            if body:
+                add(merged, body if is_stmt else f"v = {body}", f"nested_other_v{vi}_in_v{vj}")
+                break
     if spec.get("nested"):
         add(spec["nested"][0], f"v = {spec['nested'][1]}", "nested")
     for di, (header, e) in enumerate(spec.get("declined", [])):
@@ -406,6 +469,7 @@ def run_search(ctx, codemods):
         ctx.mismatch("search harness", f"the semgrep binary could not run the codemods' rules: {e!r}", {})
         return
     ctx.cli_runs += len(jobs)
+    nested_seen = set()
     for job in jobs:
         cm = job["cm"]
         if job["error"] or job.get("rc") != 0:
@@ -429,6 +493,8 @@ def run_search(ctx, codemods):
             payload = {"op": "search", "codemod": cm.id, "file": fn, "tag": info["tag"], "project": core.b64tree({fn: info["src"]}),
                        "flagged_before": before, "flagged_after": after, "changes": changes.get(fn, []), "failed": sorted(failed)}
             nested = any(contains(a, b) for a in before for b in before)
+            if nested:
+                nested_seen.add(cm._internal_name)
             # (a) flagged and not a declined shape => rewritten at that location, or the file is listed as failed
             if before and not info["declined"] and fn not in failed:
                 for L in before:
@@ -444,10 +510,22 @@ def run_search(ctx, codemods):
                 touched = changed_new_lines(info["src"], new)
                 inside = [L for L in after if any(L[0] <= ln <= L[2] for ln in touched)]
                 if inside:
-                    ctx.violation("kf_nested_selected_calls" if nested else "kf_flagged_after_rewrite",
+                    # an inner match that semgrep reports only once the enclosing match is gone: it starts inside a location
+                    # flagged before the run (same line, the prefix of the line is unchanged) and was not itself flagged
+                    hidden = (not nested) and all(
+                        any(B[0] == L[0] and (B[0], B[1]) < (L[0], L[1]) and (L[0], L[1]) < (B[2], B[3]) for B in before)
+                        and not any((B[0], B[1]) == (L[0], L[1]) for B in before) for L in inside)
+                    if nested:
+                        ctx.count(f"search:{cm._internal_name}:nested_still_flagged")
+                    cls = f"kf_nested_selected_calls:{cm._internal_name}" if nested else (
+                        f"kf_inner_match_reported_only_after:{cm._internal_name}" if hidden else "kf_flagged_after_rewrite")
+                    ctx.violation(cls,
                                   f"{cm.id} {fn}: after the run the codemod's own rule still flags {inside} inside rewritten lines "
                                   f"{sorted(touched)}:\n{new}", {**payload, "after_src": new,
                                                                  "expected": "no flagged location inside a rewritten statement"})
+    no_nested = sorted(j["cm"]._internal_name for j in jobs if j["cm"]._internal_name not in nested_seen)
+    ctx.notes.append("searched codemods for which no generated program has a flagged location inside another flagged location: "
+                     + (", ".join(no_nested) or "none"))
     shutil.rmtree(base, ignore_errors=True)
 
 
